@@ -214,6 +214,10 @@ func cmdCheck(args []string) int {
 				rep.Class = "P"
 			case ob.Optional:
 				rep.Class = "O"
+			case ob.Cover && ob.Status == "unknown":
+				// satisfiability of a quantified precondition could not be decided: the vacuity
+				// guard is inconclusive (reported in the evidence), only a definite unsat is an alarm
+				rep.Class = "O"
 			default:
 				// known finding?
 				for i := range findings {
@@ -435,6 +439,10 @@ func writeEvidence(path, prop, tier string, seed int, results []*FnResult, repor
 	backends := map[string]map[string]interface{}{}
 	for _, rep := range reports {
 		ob := rep.Ob
+		if ob.Cover && rep.Class == "O" {
+			uclass = append(uclass, "vacuity guard inconclusive (solver returned unknown on a satisfiability query with quantifiers): "+rep.Full)
+			continue
+		}
 		if ob.Optional {
 			nOptional++
 			if ob.Status == "discharged" {
